@@ -11,12 +11,13 @@ PROP = 'C05'
 
 def run(tier):
     out = Outcome(PROP, tier)
+    import suite
+    rec_wait = suite.record_async(tier)   # the test suite runs meanwhile
     exh = handles.run_handles(out, tier)
     import core_driver
     core_driver.run_isolation(out, tier)
     # the calls of the repository's own tests: receivers and arguments unchanged
-    import suite
-    suite.run_suite(out, tier, {'iso'}, '-')
+    suite.run_suite(out, tier, {'iso'}, '-', recorded=rec_wait())
     out.exhaustive = False
     out.cov['rule'] = ('handle schedules: one case = one open/close/drop/'
                        'collect schedule x constructor kinds, non-trivial = '
